@@ -8,7 +8,12 @@ CFG = {
                    "GeoModel/Ops/C02.lean", "GeoProofs/Lemmas/SegmentSpec.lean", "GeoProofs/Lemmas/RingSpec.lean",
                    "GeoProofs/Lemmas/LocateLemmas.lean", "GeoProofs/Lemmas/C02QContains.lean", "GeoProofs/Lemmas/C02QWinding.lean",
                    "GeoProofs/Lemmas/C02QHoles.lean", "GeoProofs/Lemmas/C02QPerturb.lean",
-                   "GeoProofs/Lemmas/WINDJump.lean", "GeoProofs/Lemmas/WINDSimple.lean", "GeoProofs/Lemmas/WINDHoles.lean"],
+                   "GeoProofs/Lemmas/WINDJump.lean", "GeoProofs/Lemmas/WINDSimple.lean", "GeoProofs/Lemmas/WINDHoles.lean",
+                   "GeoProofs/Lemmas/WINDCross.lean", "GeoProofs/Lemmas/WINDJordan.lean",
+                   "GeoProofs/Lemmas/C02XTable.lean", "GeoProofs/Lemmas/C02XAdj.lean", "GeoProofs/Lemmas/C02XSide.lean",
+                   "GeoProofs/Lemmas/C02XMulti.lean", "GeoProofs/Lemmas/C02XBox.lean", "GeoProofs/Lemmas/C02XConst.lean",
+                   "GeoProofs/Lemmas/C02XLinear.lean", "GeoProofs/Lemmas/C02XSegs.lean", "GeoProofs/Lemmas/C02XCommon.lean",
+                   "GeoProofs/Lemmas/C02XAcc.lean", "GeoProofs/Lemmas/C02XPoint.lean"],
     "rule": "2/3 of the cases: ordered pairs (A, B) over all 10 types (both through the Geometry enum) from one shared grid, B drawn independently or "
             "from A's own vertices / edge midpoints / edges (so containment is frequent): intersects(A,B), intersects(B,A), contains(A,B), is_within(A,B); "
             "1/3: coordinate_position(G, p) with p a vertex, an edge midpoint or a half-grid point. Three-way comparison per case: implementation, "
